@@ -145,6 +145,7 @@ PROPS["C03"] = {
         "Lean re-implementations of Rust integer formatting ({:04x}, {:03b}, {} of i16)",
         "the literal pieces of the normal-mode REG table are shared by specification and model (Lace/Basic/Tables.lean)",
         "stderr messages (exception text, LineTracker newlines) are not modelled",
+        "crossterm's decoding of terminal bytes into key events (the driver's eventsOfTyped applies the single-character rules of crossterm 0.28's unix parser to the typed text of C03T requests)",
     ],
     "assumptions": [
         "GETC/IN: non-ASCII byte gives xFFFD; end of input is an emulator error (exit status 1)",
